@@ -39,7 +39,7 @@ def make_judge():
 def run(rep, tier, seed, budget):
     ctx = Ctx.get()
     quick = tier == "quick"
-    total = budget or (85 if quick else 1500)
+    total = budget or (115 if quick else 1500)
     t_end = time.time() + total
     jf = make_judge()
     plan = []
